@@ -60,10 +60,12 @@ EntryOf(e) == [op |-> e.op, k |-> e.k, v |-> e.v, kc |-> e.kc, rep |-> e.rep, ak
 \* the API call of the current line
 CallAction(e) ==
   CASE e.ev = "open"  -> Open(e.nm = 1)
-    [] e.ev = "put"   -> WriteEntry(EntryOf(e), e.fl = 1, e.told = 1) \/ PutDropped(EntryOf(e))
-    [] e.ev = "flush" -> Flush
-    [] e.ev = "sync"  -> Sync
-    [] e.ev = "close" -> Close \/ CloseWedged
+    [] e.ev = "put"   -> \/ WriteEntry(EntryOf(e), e.fl = 1, e.told = 1)
+                         \/ PutDropped(EntryOf(e))
+                         \/ PutWedged(EntryOf(e), e.fl = 1, e.told = 1)
+    [] e.ev = "flush" -> Flush \/ WedgedFail("flush")
+    [] e.ev = "sync"  -> Sync \/ WedgedFail("sync")
+    [] e.ev = "close" -> Close \/ WedgedFail("close")
     [] OTHER -> FALSE
 
 IsCall(e) == e.ev \in {"open", "put", "flush", "sync", "close"}
